@@ -29,11 +29,20 @@ def one_doc(seed):
             tree = docs.parse(text)
             advtree.build_advanced_tree(tree)
             before = reduce(g.tree_words(tree))
-            tables_before = sum(1 for n in tree.get_all_children() if n.__class__.__name__ == "Table")
+            def big_tables(t):
+                # tables with >= 2 rows and >= 2 columns (single-cell / single-row tables may be dissolved by design)
+                n = 0
+                for x in t.get_all_children():
+                    if x.__class__.__name__ == "Table":
+                        rows = [r for r in x.children if r.__class__.__name__ == "Row"]
+                        if len(rows) >= 2 and max((len([c for c in r.children if c.__class__.__name__ == "Cell"]) for r in rows), default=0) >= 2:
+                            n += 1
+                return n
+            tables_before = big_tables(tree)
             tc = TreeCleaner(tree, save_reports=True)
             tc.clean_all(skip_methods=[])
             after = reduce(g.tree_words(tree))
-            tables_after = sum(1 for n in tree.get_all_children() if n.__class__.__name__ == "Table")
+            tables_after = big_tables(tree)
             errors = [r for r in tc.get_reports() if "ERROR" in str(r)]
     except Exception as e:  # noqa: BLE001
         return seed, f"raised {type(e).__name__}: {e}", text, 0
